@@ -109,9 +109,9 @@ struct Shared
 impl Shared
 {
     fn tick(&self) -> u64 { self.seq.fetch_add(1, Ordering::SeqCst) + 1 }
-    fn created(&self, s: u8) -> usize { let t = self.tick(); let mut h = self.hist.lock().unwrap(); h.clones.push((s, t, None, None)); h.clones.len() - 1 }
-    fn drop_invoke(&self, id: usize) { let t = self.tick(); self.hist.lock().unwrap().clones[id].2 = Some(t); }
-    fn drop_return(&self, id: usize) { let t = self.tick(); self.hist.lock().unwrap().clones[id].3 = Some(t); }
+    fn created(&self, s: u8) -> usize { let t = self.tick(); let mut h = self.hist.lock().unwrap_or_else(|e| e.into_inner()); h.clones.push((s, t, None, None)); h.clones.len() - 1 }
+    fn drop_invoke(&self, id: usize) { let t = self.tick(); self.hist.lock().unwrap_or_else(|e| e.into_inner()).clones[id].2 = Some(t); }
+    fn drop_return(&self, id: usize) { let t = self.tick(); self.hist.lock().unwrap_or_else(|e| e.into_inner()).clones[id].3 = Some(t); }
 }
 
 fn yield_hook() { shuttle::thread::yield_now(); }
@@ -193,7 +193,7 @@ fn scenario(p: &TProg, stats: &TStats)
     let check_gc = |world: &World, gi: u64, gr: u64, manual: &Vec<bool>, last: bool|
     {
         let alive = alive_now(world);
-        let h = sh.hist.lock().unwrap();
+        let h = sh.hist.lock().unwrap_or_else(|e| e.into_inner());
         // per entity: is it guarded, and what do the histories of its signals say
         let mut must_dead = vec![false; nent];
         let mut may_dead = vec![false; nent];
@@ -264,7 +264,7 @@ fn scenario(p: &TProg, stats: &TStats)
     if alive_now(world) != before { panic!("gc-not-idempotent: a second garbage collection changed the world"); }
     // probes
     {
-        let h = sh.hist.lock().unwrap();
+        let h = sh.hist.lock().unwrap_or_else(|e| e.into_inner());
         for s in 0..nsig
         {
             let mut last: Vec<_> = h.clones.iter().filter(|c| c.0 as usize == s).collect();
@@ -279,20 +279,26 @@ fn scenario(p: &TProg, stats: &TStats)
         use std::hash::{Hash, Hasher};
         for c in &h.clones { c.hash(&mut hh); }
         before.hash(&mut hh);
-        stats.outcomes.lock().unwrap().insert(hh.finish());
+        stats.outcomes.lock().unwrap_or_else(|e| e.into_inner()).insert(hh.finish());
     }
     stats.executions.fetch_add(1, Ordering::Relaxed);
     bevy_cobweb::verif::set_yield_hook(None);
 }
 
 #[derive(Serialize, Deserialize)]
-struct TReplay { version: u32, property: String, rule: String, message: String, verif_seed: u64, program_seed: u64, tprog: TProg, schedule: String, program: Program }
+struct TReplay
+{
+    version: u32, property: String, rule: String, message: String, verif_seed: u64, program_seed: u64, tprog: TProg,
+    /// the schedules are a pure function of (scheduler seed, number of schedules): replay re-runs the same seeded scheduler
+    scheduler: String, scheduler_seed: u64, schedules: usize, failed_at_schedule: usize,
+}
 
-fn run_shuttle(p: &TProg, seed: u64, iterations: usize, stats: Arc<TStats>, persist_dir: &std::path::Path) -> Result<(), (String, Option<String>)>
+fn run_shuttle(p: &TProg, seed: u64, iterations: usize, stats: Arc<TStats>) -> Result<(), (String, usize)>
 {
     let mut cfg = shuttle::Config::new();
     cfg.stack_size = 1 << 20;
-    cfg.failure_persistence = shuttle::FailurePersistence::File(Some(persist_dir.to_path_buf()));
+    cfg.failure_persistence = shuttle::FailurePersistence::None;
+    let before = stats.executions.load(Ordering::Relaxed);
     let sched = shuttle::scheduler::RandomScheduler::new_from_seed(seed, iterations);
     let p2 = p.clone();
     let st = stats.clone();
@@ -306,14 +312,7 @@ fn run_shuttle(p: &TProg, seed: u64, iterations: usize, stats: Arc<TStats>, pers
         Err(e) =>
         {
             let msg = e.downcast_ref::<String>().cloned().or_else(|| e.downcast_ref::<&str>().map(|s| s.to_string())).unwrap_or_else(|| "panic".into());
-            // newest schedule file in the directory
-            let mut sched = None;
-            if let Ok(rd) = std::fs::read_dir(persist_dir)
-            {
-                let mut files: Vec<_> = rd.flatten().filter(|f| f.file_name().to_string_lossy().starts_with("schedule")).collect();
-                files.sort_by_key(|f| f.metadata().and_then(|m| m.modified()).ok());
-                if let Some(f) = files.last() { sched = std::fs::read_to_string(f.path()).ok(); let _ = std::fs::remove_file(f.path()); }
-            }
+            let sched = stats.executions.load(Ordering::Relaxed) - before;
             Err((msg, sched))
         }
     }
@@ -326,16 +325,12 @@ pub fn explore(vseed: u64, executions: usize, dir: &std::path::Path) -> (serde_j
     let nprogs = (executions / per_prog).max(1);
     let threads = std::thread::available_parallelism().map(|n| n.get()).unwrap_or(8).min(16);
     let stats = Arc::new(TStats::default());
-    let found: Arc<Mutex<Vec<(u64, u64, TProg, String, Option<String>)>>> = Arc::new(Mutex::new(Vec::new()));
-    let tmp = std::env::temp_dir().join(format!("cobsim-shuttle-{}", std::process::id()));
-    let _ = std::fs::create_dir_all(&tmp);
+    let found: Arc<Mutex<Vec<(u64, u64, TProg, String, usize)>>> = Arc::new(Mutex::new(Vec::new()));
     let mut hs = Vec::new();
     for t in 0..threads
     {
         let stats = stats.clone();
         let found = found.clone();
-        let tmp = tmp.join(format!("w{t}"));
-        let _ = std::fs::create_dir_all(&tmp);
         hs.push(std::thread::Builder::new().stack_size(64 << 20).spawn(move ||
         {
             let mut i = t;
@@ -343,9 +338,17 @@ pub fn explore(vseed: u64, executions: usize, dir: &std::path::Path) -> (serde_j
             {
                 let pseed = crate::gen::mix(crate::gen::mix(vseed, 0xC10), i as u64);
                 let p = gen_tprog(pseed);
-                if let Err((msg, sched)) = run_shuttle(&p, pseed, per_prog, stats.clone(), &tmp)
+                // every program gets its own statistics object so that "failed at schedule" is exact
+                let local = Arc::new(TStats::default());
+                let res = run_shuttle(&p, pseed, per_prog, local.clone());
+                stats.executions.fetch_add(local.executions.load(Ordering::Relaxed), Ordering::Relaxed);
+                stats.gc_with_drop_in_flight.fetch_add(local.gc_with_drop_in_flight.load(Ordering::Relaxed), Ordering::Relaxed);
+                stats.two_final_drops_concurrent.fetch_add(local.two_final_drops_concurrent.load(Ordering::Relaxed), Ordering::Relaxed);
+                stats.collected_by_gc.fetch_add(local.collected_by_gc.load(Ordering::Relaxed), Ordering::Relaxed);
+                stats.outcomes.lock().unwrap_or_else(|e| e.into_inner()).extend(local.outcomes.lock().unwrap_or_else(|e| e.into_inner()).iter().copied());
+                if let Err((msg, sched)) = res
                 {
-                    let mut f = found.lock().unwrap();
+                    let mut f = found.lock().unwrap_or_else(|e| e.into_inner());
                     if f.len() < 8 { f.push((i as u64, pseed, p, msg, sched)); }
                 }
                 i += threads;
@@ -353,8 +356,7 @@ pub fn explore(vseed: u64, executions: usize, dir: &std::path::Path) -> (serde_j
         }).unwrap());
     }
     for h in hs { let _ = h.join(); }
-    let _ = std::fs::remove_dir_all(&tmp);
-    let mut found = std::mem::take(&mut *found.lock().unwrap());
+    let mut found = std::mem::take(&mut *found.lock().unwrap_or_else(|e| e.into_inner()));
     found.sort_by_key(|f| f.0);
     let mut out = Vec::new();
     if let Some((idx, pseed, p, msg, sched)) = found.first()
@@ -363,7 +365,8 @@ pub fn explore(vseed: u64, executions: usize, dir: &std::path::Path) -> (serde_j
         let rdir = dir.join("replays");
         let _ = std::fs::create_dir_all(&rdir);
         let path = rdir.join(format!("C10-threads-{vseed}-{idx}.json"));
-        let rf = TReplay { version: 1, property: "C10".into(), rule, message: msg.clone(), verif_seed: vseed, program_seed: *pseed, tprog: p.clone(), schedule: sched.clone().unwrap_or_default(), program: Program::default() };
+        let rf = TReplay { version: 1, property: "C10".into(), rule, message: msg.clone(), verif_seed: vseed, program_seed: *pseed, tprog: p.clone(),
+            scheduler: "shuttle::scheduler::RandomScheduler::new_from_seed".into(), scheduler_seed: *pseed, schedules: per_prog, failed_at_schedule: *sched };
         let _ = std::fs::write(&path, serde_json::to_string_pretty(&rf).unwrap());
         out.push((msg.clone(), path.display().to_string()));
     }
@@ -373,7 +376,7 @@ pub fn explore(vseed: u64, executions: usize, dir: &std::path::Path) -> (serde_j
         "scheduler": "shuttle RandomScheduler (seeded); yield points: harness ops + cfg-gated hooks in auto_despawn.rs (Arc clone/drop/strong_count, before send, inside the collection loop)",
         "programs": nprogs, "schedules_per_program": per_prog, "executions_completed": execs,
         "executions_per_hour": (execs as f64 / wall.max(0.001) * 3600.0) as u64,
-        "distinct_histories": stats.outcomes.lock().unwrap().len(),
+        "distinct_histories": stats.outcomes.lock().unwrap_or_else(|e| e.into_inner()).len(),
         "probe_gc_while_a_drop_is_in_flight": stats.gc_with_drop_in_flight.load(Ordering::Relaxed),
         "probe_two_final_drops_concurrent": stats.two_final_drops_concurrent.load(Ordering::Relaxed),
         "entities_collected_by_gc": stats.collected_by_gc.load(Ordering::Relaxed),
@@ -388,20 +391,15 @@ pub fn replay(_p: &Program, _schedule: &str, path: &str) -> i32
     let txt = match std::fs::read_to_string(path) { Ok(t) => t, Err(e) => { eprintln!("cannot read {path}: {e}"); return 2; } };
     let rf: TReplay = match serde_json::from_str(&txt) { Ok(r) => r, Err(e) => { eprintln!("bad thread replay file: {e}"); return 2; } };
     let stats = Arc::new(TStats::default());
-    let p = rf.tprog.clone();
-    let sched = rf.schedule.clone();
-    crate::obs::set_quiet(true);
-    let r = std::panic::catch_unwind(std::panic::AssertUnwindSafe(move || { shuttle::replay(move || scenario(&p, &stats), &sched); }));
-    crate::obs::set_quiet(false);
-    match r
+    match run_shuttle(&rf.tprog, rf.scheduler_seed, rf.schedules, stats)
     {
-        Err(e) =>
+        Err((msg, at)) if msg.starts_with(&rf.rule) =>
         {
-            let msg = e.downcast_ref::<String>().cloned().or_else(|| e.downcast_ref::<&str>().map(|s| s.to_string())).unwrap_or_else(|| "panic".into());
-            println!("reproduced: {msg}");
+            println!("reproduced at schedule {at} (recorded: {}): {msg}", rf.failed_at_schedule);
             println!("VIOLATION property=C10 replay={path}");
             1
         }
-        Ok(()) => { println!("replay did not reproduce the thread-scenario violation"); 0 }
+        Err((msg, _)) => { println!("replay failed differently: {msg}"); println!("VIOLATION property=C10 replay={path}"); 1 }
+        Ok(()) => { println!("replay did not reproduce the thread-scenario violation ({} schedules clean)", rf.schedules); 0 }
     }
 }
